@@ -72,3 +72,24 @@ Example c10_witness :
   let m1 := set Z.eqb (fun v _ => v) (delete Z.eqb m0 1%Z []) 1%Z 50%Z in
   fst (range Z.eqb (fun v _ => v) m1 (fun _ => [])) = [1%Z; 2%Z; 3%Z] /\ len m1 = 3.
 Proof. vm_compute. split; reflexivity. Qed.
+
+(* ---- the instructions that reach the map: GET, SET and the peephole-fused FASTGET / FASTSET / FASTGETINT /
+   FASTSETINT.  The dispatch cases of do.go are translated by tools/go2v on every run (Gen/Steps_gen.v
+   step_gen_obj; Value.Get / Value.Set themselves are obj_get / obj_set of Model/VM.v, whose map part is the
+   oracle ext_get / ext_set that Model/OMap.v instantiates and the correspondence ties to value.go):
+   every one of the six cases does exactly one Get (one Set) on the operand the plain form would use and pushes
+   its result (a fast path added around the call -- the C10-5 seeded change -- is a translation failure, i.e.
+   a broken obligation), and all six cases are in the translated set. *)
+From Coq Require Import String.
+From GV Require GoSpec.GoPrim Model.VM Gen.Tables_gen Gen.Steps_gen Proofs.Steps_agree.
+Theorem c10_get_set_from_source : forall grow ext_get ext_set ext_len ext_getattr ext_setattr codes pc i slots ops s r,
+  Steps_gen.step_gen_obj ext_get ext_set i slots ops s = Some r ->
+  Steps_agree.sres_same r (VM.step1 grow ext_get ext_set ext_len ext_getattr ext_setattr codes pc i slots ops s).
+Proof. exact Steps_agree.steps_agree_obj. Qed.
+Print Assumptions c10_get_set_from_source.
+Theorem c10_get_set_cover : forall name,
+  In name ["codeGet"; "codeSet"; "codeFastGet"; "codeFastSet"; "codeFastGetInt"; "codeFastSetInt"]%string ->
+  In name Steps_gen.step_gen_obj_opcodes /\
+  forall ext_get ext_set i slots ops s, VM.icode i = VM.C name -> Steps_gen.step_gen_obj ext_get ext_set i slots ops s <> None.
+Proof. exact Steps_agree.steps_cover_obj. Qed.
+Print Assumptions c10_get_set_cover.
